@@ -240,6 +240,11 @@ static lp_polynomial_t* degenerate_poly(void) {
   return p;
 }
 
+#ifdef LPV_HAVE_CXX_SHIM
+size_t lpv_cxx_infeasible(const lp_polynomial_t* p, const lp_assignment_t* m, int sc, lp_interval_t** out);
+size_t lpv_cxx_roots(const lp_polynomial_t* p, const lp_assignment_t* m, lp_value_t** out);
+#endif
+
 static void main_case(int mode) {
   int kind = 0;
   lp_polynomial_t* T = scenario(&kind);
@@ -275,12 +280,34 @@ static void main_case(int mode) {
     for (size_t k = 0; k < n; ++k) { sb_sp(); sb_val(&roots[k]); lp_value_destruct(&roots[k]); }
     sb_emit();
     free(roots);
+#ifdef LPV_HAVE_CXX_SHIM
+    if (chance(50)) {   /* the C++ helper must return the same roots */
+      lp_value_t* xr = 0;
+      sb_begin("ev", "roots"); sb_sp(); sb_poly(p); sb_sp(); sb_asg(); sb_arrow();
+      size_t xn = lpv_cxx_roots(p, M, &xr);
+      sb_sp(); sb_ulong(xn);
+      for (size_t k = 0; k < xn; ++k) { sb_sp(); sb_val(&xr[k]); lp_value_destruct(&xr[k]); }
+      sb_emit();
+      free(xr);
+    }
+#endif
   } else {
     int cond = rnd(6), neg = chance(40);
     if (chance(70)) {
       sb_begin("ev", "fs"); sb_sp(); sb_poly(p); sb_sp(); sb_long(cond); sb_sp(); sb_long(neg); sb_sp(); sb_asg(); sb_arrow();
       lp_feasibility_set_t* s = lp_polynomial_constraint_get_feasible_set(p, (lp_sign_condition_t)cond, neg, M);
       sb_sp(); sb_vset(s); sb_emit();
+#ifdef LPV_HAVE_CXX_SHIM
+      if (!neg) {       /* poly::infeasible_regions: the complement of the feasible set */
+        lp_interval_t* R = 0;
+        sb_begin("ev", "infeas"); sb_sp(); sb_long(cond); sb_sp(); sb_vset(s); sb_arrow();
+        size_t rn = lpv_cxx_infeasible(p, M, cond, &R);
+        sb_sp(); sb_str("{");
+        for (size_t i = 0; i < rn; ++i) { if (i) sb_str(";"); sb_vinterval(&R[i]); lp_interval_destruct(&R[i]); }
+        sb_str("}"); sb_emit();
+        free(R);
+      }
+#endif
       lp_feasibility_set_delete(s);
     } else {
       size_t k = rnd(lp_polynomial_degree(p) + 2);
